@@ -1216,3 +1216,102 @@ func ruleInclusiveFlagsSingleInterpreter(r *Report, rule string) {
 		undecidedf("inclusive-flag rule matched %d sites", n)
 	}
 }
+
+// ruleOmitemptyNilVsEmpty (K9): a slice/map field tagged `omitempty` comes back
+// nil after a save whether it was nil or empty, so no behaviour may depend on
+// the difference.  Nil tests of such fields (or of locals copied from them) are
+// allowed only in the two harmless idioms: lazy allocation
+// (`if x.F == nil { x.F = make/literal }`) and a guard around a range over the
+// same collection.
+func ruleOmitemptyNilVsEmpty(r *Report, rule, pkgRel string, typeNames ...string) {
+	p := r.P
+	fields := map[*types.Var]bool{}
+	for _, tn := range typeNames {
+		_, st := structOf(p, pkgRel, tn)
+		for _, jf := range jsonFieldsOf(st) {
+			if !jf.OmitEmpty {
+				continue
+			}
+			switch jf.Var.Type().Underlying().(type) {
+			case *types.Slice, *types.Map:
+				fields[jf.Var] = true
+			}
+		}
+	}
+	if len(fields) == 0 {
+		undecidedf("no omitempty slice/map fields found in %v", typeNames)
+	}
+	n := 0
+	for _, fi := range p.funcsInPkg(pkgRel) {
+		if fi.Decl.Body == nil {
+			continue
+		}
+		info := fi.Pkg.TypesInfo
+		// locals that are plain copies of such a field
+		copies := map[types.Object]*types.Var{}
+		ast.Inspect(fi.Decl.Body, func(x ast.Node) bool {
+			as, ok := x.(*ast.AssignStmt)
+			if !ok || len(as.Lhs) != len(as.Rhs) {
+				return true
+			}
+			for i, rhs := range as.Rhs {
+				if sel, ok := ast.Unparen(rhs).(*ast.SelectorExpr); ok {
+					if fv, ok := info.ObjectOf(sel.Sel).(*types.Var); ok && fields[fv] {
+						if o := objOf(info, as.Lhs[i]); o != nil {
+							copies[o] = fv
+						}
+					}
+				}
+			}
+			return true
+		})
+		fieldOf := func(e ast.Expr) *types.Var {
+			e = ast.Unparen(e)
+			if sel, ok := e.(*ast.SelectorExpr); ok {
+				if fv, ok := info.ObjectOf(sel.Sel).(*types.Var); ok && fields[fv] {
+					return fv
+				}
+			}
+			if o := objOf(info, e); o != nil {
+				return copies[o]
+			}
+			return nil
+		}
+		ast.Inspect(fi.Decl.Body, func(x ast.Node) bool {
+			be, ok := x.(*ast.BinaryExpr)
+			if !ok || (be.Op != token.EQL && be.Op != token.NEQ) || !isNilIdent(info, be.Y) {
+				return true
+			}
+			fv := fieldOf(be.X)
+			if fv == nil {
+				return true
+			}
+			n++
+			r.Fn(fi)
+			// harmless idioms
+			harmless := false
+			for _, anc := range enclosing(fi.Decl.Body, be) {
+				is, ok := anc.(*ast.IfStmt)
+				if !ok || ast.Unparen(is.Cond) != ast.Expr(be) || is.Else != nil || len(is.Body.List) != 1 {
+					continue
+				}
+				switch s := is.Body.List[0].(type) {
+				case *ast.AssignStmt: // lazy allocation of the same field
+					if be.Op == token.EQL && len(s.Lhs) == 1 && fieldOf(s.Lhs[0]) == fv && allocates(info, s.Rhs[0], nil, "", "") {
+						harmless = true
+					}
+				case *ast.RangeStmt: // guard around a range over the same collection
+					if be.Op == token.NEQ && fieldOf(s.X) == fv {
+						harmless = true
+					}
+				}
+			}
+			r.Ob(rule, fi.Name+"/"+fv.Name()+"-nil-test-is-harmless", be.Pos(), harmless,
+				"`"+exprStr(be)+"` distinguishes a nil "+fv.Name()+" from an empty one, but the field is `omitempty`: an empty value is not written and comes back nil after a save, so the mapping behaves differently after a reopen (allowed only as lazy allocation or as a guard around a range over the same collection)")
+			return true
+		})
+	}
+	if n < 3 {
+		undecidedf("omitempty nil-vs-empty rule matched %d nil tests", n)
+	}
+}
